@@ -25,6 +25,9 @@ type CompressingResponseWriter struct {
 	encoding   string
 	// cancelled is set when the response was taken out of content encoding before anything was written
 	cancelled bool
+	// started is set once a status, a body byte or a flush went through this writer: the header, with
+	// its Content-Encoding, may be on its way to the client and the coding can no longer be cancelled
+	started bool
 }
 
 // Header is part of http.ResponseWriter interface
@@ -34,12 +37,14 @@ func (c *CompressingResponseWriter) Header() http.Header {
 
 // WriteHeader is part of http.ResponseWriter interface
 func (c *CompressingResponseWriter) WriteHeader(status int) {
+	c.started = true
 	c.writer.WriteHeader(status)
 }
 
 // Write is part of http.ResponseWriter interface
 // It is passed through the compressor
 func (c *CompressingResponseWriter) Write(bytes []byte) (int, error) {
+	c.started = true
 	if c.cancelled {
 		return c.writer.Write(bytes)
 	}
@@ -56,6 +61,7 @@ func (c *CompressingResponseWriter) CloseNotify() <-chan bool {
 
 // Flush is part of http.Flusher interface. Noop if the underlying writer doesn't support it.
 func (c *CompressingResponseWriter) Flush() {
+	c.started = true
 	flusher, ok := c.writer.(http.Flusher)
 	if !ok {
 		// writer doesn't support http.Flusher interface
@@ -82,10 +88,11 @@ func (c *CompressingResponseWriter) Close() error {
 	return nil
 }
 
-// cancel takes the response out of content encoding. It must be called before anything is written:
-// the unused compressor goes back to its provider and the bytes pass through unchanged from then on.
+// cancel takes the response out of content encoding: the unused compressor goes back to its provider
+// and the bytes pass through unchanged from then on. It does nothing once the response has started
+// (a container mounted behind a handler that has written already): the coding then stays in force.
 func (c *CompressingResponseWriter) cancel() {
-	if c.isCompressorClosed() {
+	if c.isCompressorClosed() || c.started {
 		return
 	}
 	c.writer.Header().Del(HEADER_ContentEncoding)
